@@ -167,6 +167,16 @@ theorem c21_zero_count (key : List (BitVec 8)) : specHashSlot key 0#16 = 0#16 :=
 theorem c21_pure (k₁ k₂ : List (BitVec 8)) (c₁ c₂ : BitVec 16) (hk : k₁ = k₂) (hc : c₁ = c₂) :
     specHashSlot k₁ c₁ = specHashSlot k₂ c₂ := by subst hk; subst hc; rfl
 
+/-- every batch/single routing entry point of pkg/cluster/routing derives the hash slot of EACH key by
+    `HashSlotForKey(key, <table>.HashSlotCount)` (directly or through `routeKey`) and nowhere else
+    (extracted definition sites; a shortcut that reuses a neighbour's slot changes this list) -/
+theorem c21_routing_sites : routingHashSlotSites =
+    [("RouteKey", "routeKey(table,key)"), ("RouteKeys", "routeKey(table,key)"),
+     ("RouteKeysPartial", "routeKey(table,key)"), ("routeKey", "HashSlotForKey(key,table.HashSlotCount)"),
+     ("RouteAuthorities", "HashSlotForKey(key,t.HashSlotCount)"),
+     ("RouteAuthoritiesPartial", "HashSlotForKey(key,t.HashSlotCount)"), ("BuildTable", "r.From")] := by
+  decide
+
 -- non-vacuity: "123456789" has the well-known check value 0xCBF43926
 set_option maxRecDepth 100000 in
 example : specCrc32 [0x31#8,0x32#8,0x33#8,0x34#8,0x35#8,0x36#8,0x37#8,0x38#8,0x39#8] = 0xCBF43926#32 := by decide
